@@ -359,6 +359,9 @@ class Prover:
             elif e.label[0] == "otherwise":
                 seen = set(e.label[1])
                 ks = sorted({k for (S_, k) in arms if S_ == e.src and k not in seen})
+                tinfo = self.an.term.get(e.src) or {}
+                if tinfo.get("dty") == "bool":
+                    ks = [v for v in (0, 1) if v not in seen]
             else:
                 continue
             if e.label[0] == "otherwise" and len(ks) == 1 and e.src in complete:
@@ -384,6 +387,17 @@ class Prover:
             for k2, f in (common or {}).items():
                 if k2 not in have:
                     out.append(f)
+            # a single way in whose flag is a computed value: in this arm that value is the arm's constant
+            uv = getattr(self.an, "_threads_unknown_val", {})
+            if len(ins) == 1 and ins[0] in uv and len(ks) == 1 and ks[0] in (0, 1):
+                val, neg = uv[ins[0]]
+                truth = bool(ks[0]) != bool(neg)
+                extra = []
+                self.truth(val, truth, extra)
+                for f in extra:
+                    if repr(f) not in have:
+                        out.append(f)
+                        have.add(repr(f))
 
     def decompose_eq(self, D, v, dty, out):
         if dty == "bool":
@@ -710,6 +724,7 @@ def compute_threads(an):
         return None
 
     unknown = {}
+    unknown_val = {}
 
     def classify(J, L, boolneg, depth=0, unk=None):
         """[(edge node, k)] for every way into join J, and whether all of them are known; the ways in whose value is
@@ -743,6 +758,12 @@ def compute_threads(an):
                 allk = False
                 if unk is not None:
                     unk.append(e.node)
+                    pv = v
+                    if isinstance(boolneg, tuple) and boolneg[0] == "payload" and v[0] == "agg" and \
+                            variant_index(an, v) == boolneg[1] and boolneg[2] < len(v[2]):
+                        unknown_val[e.node] = (v[2][boolneg[2]], boolneg[3])     # (the flag carried, negated?)
+                    elif boolneg is True or boolneg is False:
+                        unknown_val[e.node] = (v, boolneg)
         return res, allk
     for S_ in range(cfg.nblocks):
         info = an.term.get(S_)
@@ -790,4 +811,5 @@ def compute_threads(an):
             complete.add(S_)
     an._threads = (tm, arms, complete)
     an._threads_unknown = unknown
+    an._threads_unknown_val = unknown_val
     return an._threads
